@@ -123,8 +123,10 @@ def apply_breach(spec, b):
             f['attrs']['index_type'] = {'v': 'MY-OWN-INDEX', 'r': 'kw'}
         ops[j]['data'] = model.array_spec_from(vals)
         ops[j].pop('cast', None)
-        for a in ('spacing',):
-            f['attrs'].pop(a, None)
+        f['attrs'].pop('spacing', None)
+        if k == 'nonuniform' and sel % 2:
+            # a spacing given by the user does not make the index uniform: the mode must still reject the frame
+            f['attrs']['spacing'] = {'v': 0.5, 'r': 'kw'}
     elif k == 'unit':
         ops[chans[sel % len(chans)]]['attrs']['units'] = {'v': 'furlong', 'r': 'kw'}
     elif k == 'attr-unit':
